@@ -12,6 +12,7 @@ import random
 import textwrap
 
 from . import sigs, oracle
+from . import core
 from .sigs import PO, PK, VA, KO, VK
 from .sigutil import bparams, show, show_params, src_as_sets, sources_view, ident
 
@@ -555,6 +556,7 @@ def nonname_only(meta, kind):
     return ts and all(t['cls'] == 'nonname' for t in ts)
 
 
+@core.guarded(lambda case_seed, want=None, force=None, variants=0: dict(workload='auto', case_seed=case_seed, force=force))
 def check_program(ctx, case_seed, want=('C05', 'C06', 'C07'), force=None, variants=0):
     import sigtools
     from sigtools import signatures
